@@ -19,9 +19,14 @@ class NeedAnswer(BaseException):
         self.q, self.dom = q, dom
 
 
+class Diverges(BaseException):
+    """the loop under exploration keeps going without asking the environment anything new"""
+
+
 class Env:
     def __init__(self, answers):
         self.answers = list(answers)
+        self.ticks = 0
         self.log = []
         self.known = set()       # tasks known to have a result
         self.held = set()        # locks held by this worker
@@ -32,6 +37,12 @@ class Env:
             raise NeedAnswer(q, dom)
         return self.answers.pop(0)
 
+    def tick(self):
+        """called on every store / lock access and every sleep of the loop: a run of these tiny task lists needs a few dozen"""
+        self.ticks += 1
+        if self.ticks > 3000:
+            raise Diverges()
+
 
 class SStore:
     def __init__(self, env, index):
@@ -40,6 +51,7 @@ class SStore:
     def can_load(self, name):
         t = self.index[name]
         e = self.env
+        e.tick()
         if t in e.known:
             a = True
         elif t in e.nores and t in e.held:
@@ -88,9 +100,11 @@ class SLock:
         return True
 
     def is_locked(self):
+        self.env.tick()
         return self.t in self.env.held or self.env.ask(('is_locked', self.t), [True, False])
 
     def is_failed(self):
+        self.env.tick()
         return False
 
 
@@ -128,12 +142,19 @@ def make_tasks(shape, env, hook_exits):
     return tasks
 
 
+DIVERGENT = []      # (shape, flags, log) of explored runs in which the loop did not end within MAX_ANSWERS answers of the environment
+MAX_ANSWERS = 80   # the unchanged loop ends every run of these task lists within a few dozen answers
+
+
 def explore(shape, flags, hook_exits=False, max_leaves=20000):
     """all paths of execution_loop over the task list `shape` under `flags` = (keep_going, keep_failed, aggressive_unload)"""
     from jugverif import jugenv
     leaves = []
     stack = [[]]
+    ndiv0 = len(DIVERGENT)
     while stack:
+        if len(DIVERGENT) - ndiv0 >= 3:
+            break       # the loop diverges under this task list: no point in enumerating the (huge) rest of the tree
         prefix = stack.pop()
         env = Env(prefix)
         del jug.task.alltasks[:]
@@ -161,10 +182,24 @@ def explore(shape, flags, hook_exits=False, max_leaves=20000):
         o.execute_target = None
         o.debug = False
         o.pdb = False
+        import time as _time
+        real_sleep = _time.sleep
+        _time.sleep = lambda s_: env.tick()
         try:
             r = jug.jug.execution_loop(list(tasks), o)
             env.log.append(('ret', bool(r)))
+        except Diverges:
+            DIVERGENT.append((shape, flags, list(env.log)))
+            leaves.append(list(env.log)[:60])       # emitted without an end: it cannot conform; kept short for the kernel
+            continue
         except NeedAnswer as q:
+            if len(prefix) >= MAX_ANSWERS:
+                # the loop keeps asking: under this sequence of answers it does not come to an end. The path is emitted without its
+                # end (it cannot conform) and remembered for the failing-input report.
+                DIVERGENT.append((shape, flags, list(env.log)))
+                leaves.append(list(env.log)[:60])
+                jug.hooks.reset_all_hooks()
+                continue
             for a in reversed(q.dom):
                 stack.append(prefix + [a])
             continue
@@ -175,6 +210,7 @@ def explore(shape, flags, hook_exits=False, max_leaves=20000):
         except Exception as e:
             env.log.append(('raise', 'exc', type(e).__name__))
         finally:
+            _time.sleep = real_sleep
             jug.hooks.reset_all_hooks()
             del jug.task.alltasks[:]
         leaves.append(list(env.log))
